@@ -192,6 +192,7 @@ static size_t prunerReplica(size_t S, VList & arr, std::vector<OracleCall> & tra
 }
 
 static void emit_prune(const VList & in, size_t S) {
+    { Line pre; pre << "#in" << "prune" << S << (size_t)in.size(); putVecs(pre, in); pre.emit(); }   // replay aid if the call below hangs or aborts
     VList arr = in;
     Pruner pr(S);
     auto it = pr(arr.begin(), arr.end());
